@@ -65,6 +65,7 @@ Proof.
 Qed.
 
 Lemma okout_exn k t e : okout k (Exn t e). Proof. intros r w H; discriminate. Qed.
+Lemma okout_refused k t r0 : okout k (Refused t r0). Proof. intros r w H; discriminate. Qed.
 Lemma okout_start k t sid r mid tok : okout k (Start t sid r mid tok). Proof. intros r' w H; discriminate. Qed.
 Lemma okout_send k t r w : okw k r w -> okout k (Send t r w).
 Proof.
@@ -82,8 +83,37 @@ Proof. intros H. split; auto. exists [o]. split; [reflexivity|]. intros HP. cons
 Lemma ao_emit_exn (P : Prop) k t e s : AO P k s (emit (Exn t e) s).
 Proof. apply ao_emit. intros _. apply okout_exn. Qed.
 
+Lemma ao_stop_incoming (P : Prop) k ik sid s : AO P k s (stop_incoming ik sid s).
+Proof. unfold stop_incoming. eapply AO_trans; [apply ao_set_incoming | apply ao_set_waiting]. Qed.
+Lemma ao_fold {A} (P : Prop) k (f : st -> A -> st) l :
+  (forall s a, AO P k s (f s a)) -> forall s, AO P k s (fold_left f l s).
+Proof.
+  intros H. induction l as [|a l IH]; intros s; simpl; [apply AO_refl|].
+  eapply AO_trans; [apply H | apply IH].
+Qed.
+Lemma ao_tm_dispatch_error (P : Prop) k r s : AO P k s (tm_dispatch_error r s).
+Proof.
+  unfold tm_dispatch_error. apply ao_fold. intros s0 e.
+  destruct (snd (fst e) =? r); [apply ao_stop_incoming | apply AO_refl].
+Qed.
+
+Lemma ao_set_refused (P : Prop) k v s : AO P k s (set_refused v s). Proof. aframe. Qed.
+Lemma ao_mm_dispatch_error (P : Prop) k r s : AO P k s (mm_dispatch_error r s).
+Proof.
+  unfold mm_dispatch_error. eapply AO_trans; [|apply ao_set_backlogs; intros H; apply BOKl_aremove; exact H].
+  eapply AO_trans; [apply ao_tm_dispatch_error|]. apply ao_fold. intros s0 e.
+  destruct (fst (fst e) =? r); [|apply AO_refl]. eapply AO_trans; [apply ao_set_exchanges | apply ao_cancel].
+Qed.
+Lemma ao_refusal (P : Prop) k r s : AO P k s (refusal r s).
+Proof.
+  unfold refusal. destruct (is_refused r s); [|apply AO_refl].
+  eapply AO_trans; [apply ao_emit; intros _; apply okout_refused | apply ao_mm_dispatch_error].
+Qed.
 Lemma ao_send_via (P : Prop) k r w s : (P -> okw k r w) -> AO P k s (_send_via_transport r w s).
-Proof. intros H. apply ao_emit. intros HP. apply okout_send. auto. Qed.
+Proof.
+  intros H. unfold _send_via_transport. eapply AO_trans; [|apply ao_refusal].
+  apply ao_emit. intros HP. apply okout_send. auto.
+Qed.
 Lemma ao_store (P : Prop) k r w s : AO P k s (_store_response_for_duplicates r w s).
 Proof.
   unfold _store_response_for_duplicates. destruct (negb (is_ackrst (w_type w))); [apply AO_refl|].
@@ -117,7 +147,7 @@ Lemma ao_continue_backlog_loop (P : Prop) k fuel r : forall s, BOK s -> AO P k s
 Proof.
   induction fuel as [|fuel IH]; intros s HB; simpl; [apply AO_refl|].
   destruct (has_exchange_with r s); [apply AO_refl|].
-  destruct (aget Z.eqb r (backlogs s)) as [[|w rest]|] eqn:G; [| | apply ao_emit_exn].
+  destruct (aget Z.eqb r (backlogs s)) as [[|w rest]|] eqn:G; [| | apply AO_refl].
   - apply ao_set_backlogs. intros H. apply BOKl_aremove; exact H.
   - pose proof (BOKl_aget _ _ _ HB G) as Hc. inversion Hc as [|? ? Hw Hrest]; subst.
     assert (E : AO P k s (_send_initially r w true (set_backlogs (aset Z.eqb r rest (backlogs s)) s))).
@@ -138,20 +168,6 @@ Proof.
   eapply AO_trans; [exact E | apply ao_continue_backlog]. apply (ao_bok _ _ _ _ E HB).
 Qed.
 
-Lemma ao_stop_incoming (P : Prop) k ik sid s : AO P k s (stop_incoming ik sid s).
-Proof. unfold stop_incoming. eapply AO_trans; [apply ao_set_incoming | apply ao_set_waiting]. Qed.
-Lemma ao_fold {A} (P : Prop) k (f : st -> A -> st) l :
-  (forall s a, AO P k s (f s a)) -> forall s, AO P k s (fold_left f l s).
-Proof.
-  intros H. induction l as [|a l IH]; intros s; simpl; [apply AO_refl|].
-  eapply AO_trans; [apply H | apply IH].
-Qed.
-Lemma ao_tm_dispatch_error (P : Prop) k r s : AO P k s (tm_dispatch_error r s).
-Proof.
-  unfold tm_dispatch_error. apply ao_fold. intros s0 e.
-  destruct (snd (fst e) =? r); [apply ao_stop_incoming | apply AO_refl].
-Qed.
-
 Lemma ao_retransmit (P : Prop) k r w timeout counter s : w_type w = CON -> AO P k s (_retransmit r w timeout counter s).
 Proof.
   intros Hc. unfold _retransmit. destruct (aget key_eqb (r, w_mid w) (exchanges s)); [|apply ao_emit_exn].
@@ -159,11 +175,11 @@ Proof.
   assert (E1 : AO P k s s1) by (subst s1; eapply AO_trans; [apply ao_set_exchanges | apply ao_cancel]).
   destruct (counter <? MAX_RETRANSMIT).
   - unfold _schedule_retransmit.
-    destruct (call_later (timeout * 2) (TRetransmit r w (timeout * 2) (counter + 1)) (_send_via_transport r w s1)) as [s2 h] eqn:E.
+    destruct (call_later (timeout * 2) (TRetransmit r w (timeout * 2) (counter + 1)) s1) as [s2 h] eqn:E.
     eapply AO_trans; [exact E1|].
-    eapply AO_trans; [apply ao_send_via; intros _; apply okw_not_ackrst; rewrite Hc; reflexivity|].
+    eapply AO_trans; [|apply ao_send_via; intros _; apply okw_not_ackrst; rewrite Hc; reflexivity].
     eapply AO_trans; [|apply ao_set_exchanges].
-    replace s2 with (fst (call_later (timeout * 2) (TRetransmit r w (timeout * 2) (counter + 1)) (_send_via_transport r w s1))) by (rewrite E; reflexivity).
+    replace s2 with (fst (call_later (timeout * 2) (TRetransmit r w (timeout * 2) (counter + 1)) s1)) by (rewrite E; reflexivity).
     apply ao_call_later.
   - destruct (aget Z.eqb r (backlogs s1)).
     + eapply AO_trans; [exact E1|]. eapply AO_trans; [|apply ao_tm_dispatch_error].
@@ -336,7 +352,7 @@ Proof. aframe. Qed.
 
 Lemma step_ao (P : Prop) k s e : Inv s -> BOK s -> (P -> polite k e) -> (P -> stored_ack k s) -> AO P k s (step s e).
 Proof.
-  intros HI HB Hpol Hst. destruct e as [m | | d | sid a | sid x]; simpl.
+  intros HI HB Hpol Hst. destruct e as [m | | d | sid a | sid x | r0 b0 | r0]; simpl.
   - destruct (is_request (i_code m)) eqn:Q.
     + destruct (aget key_eqb (msg_key m) (recent s)) as [v|] eqn:G.
       * rewrite (dispatch_dup m s v Q G).
@@ -354,6 +370,8 @@ Proof.
   - apply advance_ao; assumption.
   - apply ao_handler_respond.
   - apply ao_handler_raise.
+  - apply ao_set_refused.
+  - apply ao_mm_dispatch_error.
 Qed.
 
 Lemma BOK_step s e : Inv s -> BOK s -> BOK (step s e).
